@@ -40,6 +40,8 @@ struct Trace {
 struct ScriptedFile {
     /// every read delivers at most this many bytes (0 = no limit), on top of the scripted answers
     max_read: usize,
+    /// the file is `base` zero bytes followed by `data` (offsets beyond 2^32 without the memory)
+    base: u64,
     data: Arc<Vec<u8>>,
     pos: u64,
     choices: Vec<usize>,
@@ -62,7 +64,14 @@ impl ScriptedFile {
 impl AsyncRead for ScriptedFile {
     fn poll_read(mut self: Pin<&mut Self>, cx: &mut Context<'_>, buf: &mut ReadBuf<'_>) -> Poll<std::io::Result<()>> {
         let len = self.data.len() as u64;
-        let start = self.pos.min(len) as usize;
+        if self.pos < self.base {
+            // inside the virtual zero prefix: deliver zeros up to its end (no decision point)
+            let n = (buf.remaining() as u64).min(self.base - self.pos).min(4096) as usize;
+            buf.put_slice(&vec![0u8; n]);
+            self.pos += n as u64;
+            return Poll::Ready(Ok(()));
+        }
+        let start = (self.pos - self.base).min(len) as usize;
         let avail = buf.remaining().min(self.data.len() - start);
         // menu: Full, Pending, Short(1..avail-1)
         let n_alts = if avail >= 1 { 2 + avail.saturating_sub(1) } else { 2 };
@@ -81,7 +90,7 @@ impl AsyncRead for ScriptedFile {
         };
         let d = self.data.clone();
         buf.put_slice(&d[start..start + take]);
-        self.pos = (start + take) as u64;
+        self.pos = self.base + (start + take) as u64;
         Poll::Ready(Ok(()))
     }
 }
@@ -90,7 +99,7 @@ impl AsyncSeek for ScriptedFile {
     fn start_seek(mut self: Pin<&mut Self>, position: SeekFrom) -> std::io::Result<()> {
         match position {
             SeekFrom::Start(o) => self.pos = o,
-            SeekFrom::End(d) => self.pos = (self.data.len() as i64 + d) as u64,
+            SeekFrom::End(d) => self.pos = (self.base as i64 + self.data.len() as i64 + d) as u64,
             SeekFrom::Current(d) => self.pos = (self.pos as i64 + d) as u64,
         }
         self.pending_armed = true;
@@ -129,12 +138,17 @@ fn poll_to_end<F: std::future::Future>(fut: F) -> Result<F::Output, String> {
 
 /// One execution of the local reader under `choices`; returns items and the decision trace.
 fn run_local(data: &Arc<Vec<u8>>, ranges: &[(u64, usize)], use_read_at: bool, choices: &[usize]) -> Result<(Vec<Item>, Vec<usize>, Vec<usize>), String> {
-    run_local_max(data, ranges, use_read_at, choices, 0)
+    run_local_based(data, 0, ranges, use_read_at, choices, 0)
 }
 
 fn run_local_max(data: &Arc<Vec<u8>>, ranges: &[(u64, usize)], use_read_at: bool, choices: &[usize], max_read: usize) -> Result<(Vec<Item>, Vec<usize>, Vec<usize>), String> {
+    run_local_based(data, 0, ranges, use_read_at, choices, max_read)
+}
+
+/// `ranges` are in file coordinates: the file is `base` zeros followed by `data`.
+fn run_local_based(data: &Arc<Vec<u8>>, base: u64, ranges: &[(u64, usize)], use_read_at: bool, choices: &[usize], max_read: usize) -> Result<(Vec<Item>, Vec<usize>, Vec<usize>), String> {
     let tr = Arc::new(Mutex::new(Trace { alts: vec![], chosen: vec![] }));
-    let f = ScriptedFile { max_read, data: data.clone(), pos: 0, choices: choices.to_vec(), tr: tr.clone(), pending_armed: false };
+    let f = ScriptedFile { max_read, base, data: data.clone(), pos: 0, choices: choices.to_vec(), tr: tr.clone(), pending_armed: false };
     let mut reader = IoReader::new(f);
     let items = catch(|| {
         poll_to_end(async {
@@ -300,6 +314,45 @@ fn local_leg(rep: &mut Report) {
         agg
     });
     rep.agg.merge(a);
+    // offsets beyond 2^32 (archives of disk images are routinely larger than 4 GiB): the same range
+    // lists shifted behind a virtual zero prefix that ends just below / just above 2^32, every
+    // single deviation from the default answers
+    {
+        let mut agg = Agg::default();
+        for base in [(1u64 << 32) - 5, (1u64 << 32) + 7, (1u64 << 40) + 1] {
+            for (li, ranges0) in lists.iter().enumerate() {
+                if li % 3 != 1 {
+                    continue;
+                }
+                let ranges: Vec<(u64, usize)> = ranges0.iter().map(|&(o, s)| (o + base, s)).collect();
+                let want = expected_local(&data, ranges0);
+                for use_read_at in [false, true] {
+                    let mut stack: Vec<Vec<usize>> = vec![vec![]];
+                    while let Some(prefix) = stack.pop() {
+                        let (items, alts, chosen) = match run_local_based(&data, base, &ranges, use_read_at, &prefix, 0) {
+                            Ok(x) => x,
+                            Err(e) => machinery(e),
+                        };
+                        agg.add("local_executions", 1);
+                        agg.add("local_executions_beyond_4gib", 1);
+                        if let Some(class) = judge_items(&items, &want) {
+                            agg.viol(&format!("local:{class}"), || json!({"leg": "local-beyond-4GiB", "api": if use_read_at { "read_at" } else { "read_chunks" }, "file": hex(&data), "zero_prefix": base, "ranges": ranges, "answers": chosen, "items": format!("{:?}", items)}));
+                        }
+                        if prefix.is_empty() {
+                            for i in 0..chosen.len() {
+                                for alt in 1..alts[i] {
+                                    let mut p = chosen[..i].to_vec();
+                                    p.push(alt);
+                                    stack.push(p);
+                                }
+                            }
+                        }
+                    }
+                }
+            }
+        }
+        rep.agg.merge(agg);
+    }
     // sizes around 2^16 / 2^17 on a larger file with data after the requested range (read_at is
     // what reads the header: dictionaries beyond 64 KiB exist)
     {
@@ -417,7 +470,7 @@ pub fn runs_of(ranges: &[(u64, usize)]) -> Vec<(u64, u64, usize)> {
 }
 
 /// Reference model of the retrying range reader: expected request log and expected items.
-fn http_model(file: &[u8], ranges: &[(u64, usize)], faults: &[HF], budget: u32) -> (Vec<Option<(u64, u64)>>, Vec<Option<Vec<u8>>>) {
+fn http_model(base: u64, file: &[u8], ranges: &[(u64, usize)], faults: &[HF], budget: u32) -> (Vec<Option<(u64, u64)>>, Vec<Option<Vec<u8>>>) {
     let mut reqs: Vec<Option<(u64, u64)>> = vec![];
     let mut items: Vec<Option<Vec<u8>>> = vec![];
     let mut fi = 0usize;
@@ -476,7 +529,7 @@ fn http_model(file: &[u8], ranges: &[(u64, usize)], faults: &[HF], budget: u32) 
             let (ro, rs) = ranges[idx];
             debug_assert_eq!(ro, o);
             if o + rs as u64 <= pos {
-                items.push(Some(file[ro as usize..ro as usize + rs].to_vec()));
+                items.push(Some(file[(ro - base) as usize..(ro - base) as usize + rs].to_vec()));
                 idx += 1;
                 o += rs as u64;
             } else {
@@ -492,14 +545,24 @@ fn http_model(file: &[u8], ranges: &[(u64, usize)], faults: &[HF], budget: u32) 
 }
 
 fn http_case(lab: &HttpLab, file: &[u8], ranges: &[(u64, usize)], faults: &[HF], splits: &[usize], budget: u32, agg: &mut Agg) {
-    lab.server.arm(file, Script { faults: faults.to_vec(), splits: splits.to_vec(), keep_alive: false });
+    http_case_based(lab, 0, file, ranges, faults, splits, budget, agg)
+}
+
+/// `ranges0` are relative to the start of `file`, which the server places behind `base` zero bytes.
+fn http_case_based(lab: &HttpLab, base: u64, file: &[u8], ranges0: &[(u64, usize)], faults: &[HF], splits: &[usize], budget: u32, agg: &mut Agg) {
+    let shifted: Vec<(u64, usize)> = ranges0.iter().map(|&(o, s)| (o + base, s)).collect();
+    let ranges = &shifted[..];
+    if base > 0 {
+        agg.add("http_cases_beyond_4gib", 1);
+    }
+    lab.server.arm_based(base, file, Script { faults: faults.to_vec(), splits: splits.to_vec(), keep_alive: false });
     lab.pooled.set(false);
     let items = lab.read_chunks(ranges, budget);
     let log = lab.server.log();
-    let (want_reqs, want_items) = http_model(file, ranges, faults, budget);
+    let (want_reqs, want_items) = http_model(base, file, ranges, faults, budget);
     agg.add("http_cases", 1);
     agg.add("http_requests", log.len() as u64);
-    let detail = || json!({"leg": "http", "file": hex(file), "ranges": ranges, "faults": format!("{:?}", faults), "splits": splits, "retries": budget,
+    let detail = || json!({"leg": "http", "file": hex(file), "zero_prefix": base, "ranges": ranges, "faults": format!("{:?}", faults), "splits": splits, "retries": budget,
         "items": format!("{:?}", items), "requests": log.iter().map(|l| l.range).collect::<Vec<_>>(), "expected_requests": want_reqs});
     if let Some(class) = judge_items(&items, &want_items) {
         agg.viol(&format!("http:{class}"), detail);
@@ -591,6 +654,11 @@ fn http_leg(rep: &mut Report) {
                 continue;
             }
             http_case(&lab, file_ref, &lists_ref[*li], faults, splits, *budget, &mut agg);
+            // a slice of the cases with the file behind a zero prefix ending just below / above 2^32
+            if ji % 6 == 1 {
+                let base = [(1u64 << 32) - 6, (1u64 << 32) + 9, (1u64 << 41) + 3][(ji / 6) % 3];
+                http_case_based(&lab, base, file_ref, &lists_ref[*li], faults, splits, *budget, &mut agg);
+            }
             if ji % 997 == 5 {
                 agg.sample(|| json!({"leg": "http", "ranges": lists_ref[*li], "faults": format!("{:?}", faults), "splits": splits, "retries": budget}));
             }
@@ -730,6 +798,9 @@ pub fn c07(rep: &mut Report) {
     permuted.swap(1, 2);
     permuted.swap(4, 5);
     layouts.push(("permuted".into(), permuted));
+    // the contiguous layout again, served behind a zero prefix so that the third chunk straddles 2^32
+    layouts.push(("beyond-4GiB".into(), contiguous.clone()));
+    let far_base: u64 = (1u64 << 32) - 20 - (sizes[0] + sizes[1]) as u64 - 1;
     let file: Vec<u8> = (0..120u32).map(|i| (i * 7 + 3) as u8).collect();
     let total = layouts.len() * (1usize << n);
     let (layouts_ref, file_ref) = (&layouts, &file);
@@ -744,7 +815,8 @@ pub fn c07(rep: &mut Report) {
             let (lname, descs) = &layouts_ref[case / (1usize << n)];
             let mask = case % (1usize << n);
             // the subset of descriptors left to fetch, in descriptor order (as chunk_stream builds it)
-            let ranges: Vec<(u64, usize)> = descs.iter().enumerate().filter(|(i, _)| mask >> i & 1 == 1).map(|(_, r)| *r).collect();
+            let base = if lname == "beyond-4GiB" { far_base } else { 0 };
+            let ranges: Vec<(u64, usize)> = descs.iter().enumerate().filter(|(i, _)| mask >> i & 1 == 1).map(|(_, r)| (r.0 + base, r.1)).collect();
             // body fragmentation (no failures): for the contiguous layout every other subset is served
             // with the body flushed at every chunk boundary of its runs, or one byte past each boundary
             let mut splits: Vec<usize> = vec![];
@@ -759,19 +831,19 @@ pub fn c07(rep: &mut Report) {
                 }
                 agg.add("subsets_with_fragmented_bodies", 1);
             }
-            lab.server.arm(file_ref, Script { faults: vec![], splits, keep_alive: case % 2 == 0 });
+            lab.server.arm_based(base, file_ref, Script { faults: vec![], splits, keep_alive: case % 2 == 0 });
             lab.pooled.set(case % 2 == 0);
             let items = lab.read_chunks(&ranges, 0);
             let log = lab.server.log();
             agg.add("subsets", 1);
             let want: Vec<Option<(u64, u64)>> = runs_of(&ranges).iter().map(|r| Some((r.0, r.1 - 1))).collect();
             let got: Vec<Option<(u64, u64)>> = log.iter().map(|l| l.range).collect();
-            let detail = || json!({"layout": lname, "descriptors": descs, "subset_mask": mask, "requests": got, "expected": want});
+            let detail = || json!({"layout": lname, "zero_prefix": base, "descriptors": descs, "subset_mask": mask, "requests": got, "expected": want});
             if got != want {
                 let class = if got.len() > want.len() { "adjacent-chunks-not-coalesced" } else if got.len() < want.len() { "non-adjacent-chunks-in-one-request" } else { "range-bounds-wrong" };
                 agg.viol(class, detail);
             } else {
-                let want_items: Vec<Option<Vec<u8>>> = ranges.iter().map(|&(o, s)| Some(file_ref[o as usize..o as usize + s].to_vec())).collect();
+                let want_items: Vec<Option<Vec<u8>>> = ranges.iter().map(|&(o, s)| Some(file_ref[(o - base) as usize..(o - base) as usize + s].to_vec())).collect();
                 if judge_items(&items, &want_items).is_some() {
                     agg.viol("wrong-chunk-data", detail);
                 }
@@ -793,7 +865,7 @@ pub fn c07(rep: &mut Report) {
     rep.set("evaluations", json!(rep.agg.get("subsets")));
     rep.set("distinct_nontrivial", json!(rep.agg.distinct_count("request_patterns")));
     rep.set("exhaustive", json!(true));
-    rep.set("rule", json!("every subset (2^n) of the descriptors of three archive layouts (contiguous; with gaps; descriptor order != file order) is requested through the real HttpReader::read_chunks in descriptor order against a logging loopback server, with and without keep-alive, half of the contiguous layout's subsets with the response bodies flushed at (or one byte past) every chunk boundary; the same through Archive::chunk_stream on real archives whose sources repeat chunks (all subsets of the unique chunks); oracle: logged Range sequence == maximal runs of list- and offset-adjacent missing chunks with inclusive bounds first.offset .. last.end-1; non-trivial = distinct expected request patterns"));
+    rep.set("rule", json!("every subset (2^n) of the descriptors of four archive layouts (contiguous; with gaps; descriptor order != file order; contiguous with a chunk straddling offset 2^32) is requested through the real HttpReader::read_chunks in descriptor order against a logging loopback server, with and without keep-alive, half of the contiguous layout's subsets with the response bodies flushed at (or one byte past) every chunk boundary; the same through Archive::chunk_stream on real archives whose sources repeat chunks (all subsets of the unique chunks); oracle: logged Range sequence == maximal runs of list- and offset-adjacent missing chunks with inclusive bounds first.offset .. last.end-1; non-trivial = distinct expected request patterns"));
     rep.assume("in the absence of transfer failures (C08 covers those); the library-level subset is induced directly through read_chunks exactly as Archive::chunk_stream builds it; the CLI leg induces subsets through seeds");
 }
 
@@ -878,10 +950,11 @@ pub fn replay(pid: &str, v: &Value) -> bool {
     if pid == "C07" {
         let descs: Vec<(u64, usize)> = serde_json::from_value(v["descriptors"].clone()).unwrap();
         let mask = v["subset_mask"].as_u64().unwrap() as usize;
-        let ranges: Vec<(u64, usize)> = descs.iter().enumerate().filter(|(i, _)| mask >> i & 1 == 1).map(|(_, r)| *r).collect();
+        let base = v["zero_prefix"].as_u64().unwrap_or(0);
+        let ranges: Vec<(u64, usize)> = descs.iter().enumerate().filter(|(i, _)| mask >> i & 1 == 1).map(|(_, r)| (r.0 + base, r.1)).collect();
         let file: Vec<u8> = (0..120u32).map(|i| (i * 7 + 3) as u8).collect();
         let lab = HttpLab::new();
-        lab.server.arm(&file, Script { faults: vec![], splits: vec![], keep_alive: true });
+        lab.server.arm_based(base, &file, Script { faults: vec![], splits: vec![], keep_alive: true });
         let _ = lab.read_chunks(&ranges, 0);
         let got: Vec<Option<(u64, u64)>> = lab.server.log().iter().map(|l| l.range).collect();
         let want: Vec<Option<(u64, u64)>> = runs_of(&ranges).iter().map(|r| Some((r.0, r.1 - 1))).collect();
@@ -890,11 +963,13 @@ pub fn replay(pid: &str, v: &Value) -> bool {
     }
     let file = unhex(v["file"].as_str().unwrap());
     let ranges: Vec<(u64, usize)> = serde_json::from_value(v["ranges"].clone()).unwrap();
-    if v["leg"].as_str() == Some("local") {
+    if v["leg"].as_str() == Some("local") || v["leg"].as_str() == Some("local-beyond-4GiB") {
         let answers: Vec<usize> = serde_json::from_value(v["answers"].clone()).unwrap();
         let data = Arc::new(file);
-        let (items, _, _) = run_local(&data, &ranges, v["api"].as_str() == Some("read_at"), &answers).unwrap();
-        let want = expected_local(&data, &ranges);
+        let base = v["zero_prefix"].as_u64().unwrap_or(0);
+        let (items, _, _) = run_local_based(&data, base, &ranges, v["api"].as_str() == Some("read_at"), &answers, 0).unwrap();
+        let rel: Vec<(u64, usize)> = ranges.iter().map(|&(o, s)| (o - base, s)).collect();
+        let want = expected_local(&data, &rel);
         println!("replay: items {:?}", items);
         return judge_items(&items, &want).is_some();
     }
